@@ -161,3 +161,17 @@ Lemma merge_keeps_retired :
   exists (f f' : pfile unit) g, known unit (reload_merge unit f (Some f')) g = true /\ known unit f' g = false /\
                                 known unit (reload unit f (Some f')) g = false.
 Proof. exists [(1%N, tt); (2%N, tt)], [(1%N, tt)], 2%N. vm_compute. auto. Qed.
+
+Lemma gen_lookup_app S (f' f : pfile S) g :
+  gen_lookup S (f' ++ f) g = match gen_lookup S f' g with Some s => Some s | None => gen_lookup S f g end.
+Proof. induction f' as [|[g' s] r IH]; simpl; auto. destruct (N.eqb g g'); auto. Qed.
+
+(* general: whatever the old and the new file, merging keeps every generation the operator removed *)
+Lemma merge_keeps_every_retired S (f f' : pfile S) g :
+  known S f g = true -> known S f' g = false ->
+  known S (reload_merge S f (Some f')) g = true /\ known S (reload S f (Some f')) g = false.
+Proof.
+  intros K K'. split; [|exact K'].
+  unfold known, reload_merge in *. rewrite gen_lookup_app.
+  destruct (gen_lookup S f' g); [discriminate|]. exact K.
+Qed.
